@@ -66,11 +66,17 @@ def _one(args):
         err = apply_edits(dst, [(e[0].replace("src/", "", 1) if e[0].startswith("src/") else e[0], e[1], e[2]) for e in m["edits"]])
         if err:
             return {"mutant": m["id"], "status": "stale", "why": err}
-        try:
-            failed = run_rules_on(prop, dst)
-            broken = None
-        except prep.AnalysisBroken as e:
-            failed, broken = [], str(e)
+        failed, broken = [], None
+        for attempt in (0, 1):
+            try:
+                failed = run_rules_on(prop, dst)
+                broken = None
+                break
+            except prep.AnalysisBroken as e:
+                # one retry: an extractor run can fail transiently when the machine is heavily loaded
+                failed, broken = [], str(e)
+                if "extractor failed" not in broken or m.get("expect_broken") or m.get("allow_broken"):
+                    break
         keys = [o["key"] for o in failed]
         if m.get("benign"):
             ok = not failed and (broken is None or m.get("allow_broken"))
@@ -107,7 +113,8 @@ def run(ctx, prop, only=None):
                              "silent_on_benign": sum(1 for r in results if r["status"] == "silent"),
                              "stale": sum(1 for r in results if r["status"] == "stale")}
     for r in results:
-        print("  selftest %-40s %s %s" % (r["mutant"], r["status"], r.get("why") or (r.get("fired") if r["status"] in ("SURVIVED", "FALSE-ALARM") else "")))
+        print("  selftest %-40s %s %s%s" % (r["mutant"], r["status"], r.get("why") or (r.get("fired") if r["status"] in ("SURVIVED", "FALSE-ALARM") else ""),
+                                             ("  [analysis broken on the edited tree: %s]" % r["broken"][:300]) if (r.get("broken") and r["status"] in ("SURVIVED", "FALSE-ALARM")) else ""))
     bad = [r for r in results if r["status"] in ("SURVIVED", "FALSE-ALARM")]
     if bad:
         raise prep.AnalysisBroken("self-test: %s" % ", ".join("%s %s" % (r["mutant"], r["status"]) for r in bad))
